@@ -39,14 +39,12 @@ def opAssemble (j : Json) : Except String Json := do
         else []
       pure (Json.mkObj (base ++ derivs))
 
-def handle (j : Json) : Json :=
-  let r : Except String Json := do
-    match (← (fld j "op").getStr?) with
-    | "ping" => pure (Json.mkObj [("pong", true)])
-    | "assemble" => opAssemble j
-    | o => .error s!"unknown op {o}"
-  match r with
-  | .ok v => v
-  | .error e => Json.mkObj [("fatal", e)]
+/-- op handlers of this file; other areas add their own `handleX : String → Json → Option (Except String Json)`
+in `Pygom/Ops<Area>.lean` and are listed in `Pygom/Dispatch.lean` -/
+def handleCore (op : String) (j : Json) : Option (Except String Json) :=
+  match op with
+  | "ping" => some (pure (Json.mkObj [("pong", true)]))
+  | "assemble" => some (opAssemble j)
+  | _ => none
 
 end Pygom
